@@ -46,8 +46,9 @@ Record mstate := mkM {
   m_dfill : Z;             (* NC_arrayfill value of the type *)
   m_nofill : bool;         (* handle->flags & NC_NOFILL *)
   m_store : list cell;     (* the data element, one entry per stored number; its length is elem_length / esz *)
-  m_recsize : Z            (* handle->recsize: 0 in the creating session, after an open the sum of the lengths of
+  m_recsize : Z;           (* handle->recsize: 0 in the creating session, after an open the sum of the lengths of
                               the file's record variables (NC_computeshapes) *)
+  m_rdonly : bool          (* handle->hdf_mode == DFACC_RDONLY: the file was opened with DFACC_READ *)
 }.
 
 Definition is_recvar (m : mstate) : bool :=
@@ -79,7 +80,7 @@ Definition write_cells (st : list cell) (idx : Z) (vals : list cell) : list cell
   firstn i st ++ repeat Undef (i - length st) ++ vals ++ skipn (i + n) st.
 
 Definition set_store (m : mstate) (st : list cell) (nr : Z) : mstate :=
-  mkM (m_shape m) (m_esz m) nr (m_fillattr m) (m_dfill m) (m_nofill m) st (m_recsize m).
+  mkM (m_shape m) (m_esz m) nr (m_fillattr m) (m_dfill m) (m_nofill m) st (m_recsize m) (m_rdonly m).
 
 (* ---- NCcoordck ------------------------------------------------------------------------------ *)
 Fixpoint any2 (f : Z -> Z -> Z) (a b : list Z) : bool :=
@@ -148,8 +149,18 @@ Definition xdr_vdata (m : mstate) (writing : bool) (where_ count : Z) (vals : li
   let esz := m_esz m in
   let byte_count := count * esz in
   if (el <=? 0) && negb writing then
-    (* template / no data yet: the buffer is filled with the fill value *)
-    Some (m, [], repeat (Val (fill_of m)) (Z.to_nat count))
+    (* no data yet: the caller's buffer is filled with the fill value -- in a read-only session by the branch
+       "hdf_get_vp_aid failed, data_ref == 0, DFACC_RDONLY", otherwise by the "template" branch; a user-set fill
+       value goes through HDmemfill (element count), the type's default through NC_arrayfill (BYTE length);
+       both arguments are regenerated from putget.c.  Elements the call does not reach keep the buffer's content. *)
+    let filled :=
+      match m_fillattr m with
+      | Some _ => if m_rdonly m then vdata_rdonly_memfill_count count esz else vdata_template_memfill_count count esz
+      | None => (if m_rdonly m then vdata_rdonly_arrayfill_bytes count esz
+                 else vdata_template_arrayfill_bytes count esz) / esz
+      end in
+    Some (m, [], repeat (Val (fill_of m)) (Z.to_nat (Z.min filled count)) ++
+                 repeat Undef (Z.to_nat (count - filled)))
   else if writing then
     let lead := truth (vdata_lead_fill el where_) && negb (m_nofill m) in
     match (if lead then fill_chunks vdata_lead_loop_step vdata_lead_loop_more (chunk_fuel where_)
@@ -363,16 +374,22 @@ Definition sd_read (m : mstate) (us : bool) (start stride count : list Z) : msta
     (acc_m a', MRead (if ok then 0 else -1) (acc_cells a') (acc_tr a')).
 
 Definition m_init (shape : list Z) (unlim : bool) (nt : Z) : mstate :=
-  mkM shape (match nt_size nt with Some s => s | None => 1 end) 0 None (default_fill nt) false [] 0.
+  mkM shape (match nt_size nt with Some s => s | None => 1 end) 0 None (default_fill nt) false [] 0 false.
 
 Definition ceil_div (a b : Z) : Z := (a + b - 1) / b.
 
 Definition m_step (m : mstate) (o : op) : mstate * mout :=
   match o with
   | OpMode md =>
-      let nf := if md =? NC_NOFILL then true else if md =? NC_FILL then false else m_nofill m in
-      (mkM (m_shape m) (m_esz m) (m_numrecs m) (m_fillattr m) (m_dfill m) nf (m_store m) (m_recsize m), MNone)
-  | OpFillv v => (mkM (m_shape m) (m_esz m) (m_numrecs m) (Some v) (m_dfill m) (m_nofill m) (m_store m) (m_recsize m), MNone)
+      (* ncsetfill: refused for a file that is not writable; NC_NOFILL sets the flag; NC_FILL while the flag is set
+         syncs and clears it -- provided the clearing statement is reached (regenerated from file.c) *)
+      let nf := if m_rdonly m then m_nofill m
+                else if md =? NC_NOFILL then true
+                else if md =? NC_FILL then
+                  (if m_nofill m then negb (truth ncsetfill_back_to_fill_clears_nofill) else false)
+                else m_nofill m in
+      (mkM (m_shape m) (m_esz m) (m_numrecs m) (m_fillattr m) (m_dfill m) nf (m_store m) (m_recsize m) (m_rdonly m), MNone)
+  | OpFillv v => (mkM (m_shape m) (m_esz m) (m_numrecs m) (Some v) (m_dfill m) (m_nofill m) (m_store m) (m_recsize m) (m_rdonly m), MNone)
   | OpBlock _ => (m, MNone)
   | OpWrite us start stride count vals => sd_write m us start stride count vals
   | OpRead us start stride count => sd_read m us start stride count
@@ -382,7 +399,10 @@ Definition m_step (m : mstate) (o : op) : mstate * mout :=
   | OpReopen =>
       (* hdf_read_vars: numrecs from the length of the data element; the fill mode is per session *)
       let nr := if is_recvar m then ceil_div (elem_length m) (hd 1 (dsizes m)) else m_numrecs m in
-      (mkM (m_shape m) (m_esz m) nr (m_fillattr m) (m_dfill m) false (m_store m) (m_recsize m), MNone)
+      (mkM (m_shape m) (m_esz m) nr (m_fillattr m) (m_dfill m) false (m_store m) (m_recsize m) false, MNone)
+  | OpReopenRO =>
+      let nr := if is_recvar m then ceil_div (elem_length m) (hd 1 (dsizes m)) else m_numrecs m in
+      (mkM (m_shape m) (m_esz m) nr (m_fillattr m) (m_dfill m) false (m_store m) (m_recsize m) true, MNone)
   end.
 
 Fixpoint m_run (m : mstate) (ops : list op) : list mout :=
@@ -395,4 +415,4 @@ Fixpoint m_run (m : mstate) (ops : list op) : list mout :=
 Definition file_recsize (ms : list mstate) : Z :=
   fold_right (fun m acc => if is_recvar m then var_len m + acc else acc) 0 ms.
 Definition m_set_recsize (m : mstate) (rs : Z) : mstate :=
-  mkM (m_shape m) (m_esz m) (m_numrecs m) (m_fillattr m) (m_dfill m) (m_nofill m) (m_store m) rs.
+  mkM (m_shape m) (m_esz m) (m_numrecs m) (m_fillattr m) (m_dfill m) (m_nofill m) (m_store m) rs (m_rdonly m).
